@@ -330,5 +330,31 @@ fn verif_sql_contracts() {
         let _ = std::fs::remove_file(&path);
     }
     t_int.done();
+
+    // ---- C18, durability of every acknowledged lease (kill at any point): after EVERY call of allocate_address -- granted or refused --
+    //      what a second connection to the same file sees (= what survives a SIGKILL of this process) is exactly what this process
+    //      itself reads back.  All sequences of up to 3 calls over 2 clients x 3 pools (empty, {a0}, {a1}); a refused call in front of
+    //      granted ones is part of the bound. ----
+    let mut t_dur = Tally::new("reopen/every-recorded-lease-is-durable");
+    let pools3: Vec<PoolAddresses> = vec![pool_of(0, n), pool_of(1, n), pool_of(2, n)];
+    let steps: Vec<(usize, usize)> = (0..2usize).flat_map(|c| (0..3usize).map(move |q| (c, q))).collect();
+    let mut seqs: Vec<Vec<(usize, usize)>> = vec![];
+    for a in &steps { seqs.push(vec![*a]); for b in &steps { seqs.push(vec![*a, *b]); for c in &steps { seqs.push(vec![*a, *b, *c]); } } }
+    for (i, sq) in seqs.iter().enumerate() {
+        let path = dir.join(format!("dur-{}.sqlite", i));
+        let _ = std::fs::create_dir_all(&dir);
+        let _ = std::fs::remove_file(&path);
+        {
+            let mut p = Pool::new_with_conn(rusqlite::Connection::open(&path).expect("open")).expect("setup_db");
+            for (k, (c, q)) in sq.iter().enumerate() {
+                let got = p.allocate_address(CLIENTS[*c], None, &pools3[*q], DEFAULT_MIN_LEASE, DEFAULT_MAX_LEASE, b"");
+                let own = dump(&mut p);
+                let other = rusqlite::Connection::open(&path).map_err(|e| e.to_string()).and_then(|c2| Pool::new_with_conn(c2).map_err(|e| format!("{:?}", e))).map(|mut p2| dump(&mut p2));
+                t_dur.check(other.as_ref().ok() == Some(&own), || format!("calls (client, pool)={:?} after call #{} (result {:?}): this process reads {:?}, a second connection reads {:?}", sq, k + 1, got.as_ref().map(|l| l.ip), own, other));
+            }
+        }
+        let _ = std::fs::remove_file(&path);
+    }
+    t_dur.done();
     let _ = std::fs::remove_dir_all(&dir);
 }
